@@ -228,7 +228,11 @@ PROPS["C04"] = dict(
          "agree on every result, the final dump and the counters; no order found = NOT-LINEARIZABLE; (a') st.redis_sched: 2-4 threads, each with its own store "
          "instance on one Redis, run 1-3 announce-path operations on one swarm under a scheduler that lets ONE thread perform ONE round trip at a time in a generated "
          "order; the model (RedisConc.run, the semantics Redis_quiescent_sequential is about) executes the same schedule and must agree on the server state in the "
-         "middle of the schedule (operations in flight, counters lagging), the order and result of every operation, the final state and the exported totals; "
+         "middle of the schedule (operations in flight, counters lagging), the order and result of every operation, the final state and the exported totals; in half "
+         "of the rounds one or two threads run a whole expiry pass (old prefix, cutoff between / at / before the times): a tracing connection reports which of the "
+         "collector's command groups went through and when, the model replays that trace (a group that went through = its atomic step at the state reached); "
+         "(a'') redisGcStorm: three instances, four free-running workers re-announcing and deleting their own old peers on three swarms while two instances run "
+         "expiry passes in a loop; the outcome is determined whatever the interleaving and is compared with the model after one pass at rest; "
          "(b) 8 goroutines sending announces (with options, truncations) "
          "through one UDP Frontend sharing its buffer and generator pools, request buffers scribbled after the call, against a logic that echoes request "
          "fields: every datagram must be the model's answer to its own request; non-trivial = every linearized round and every concurrent datagram, distinct op lines",
